@@ -97,6 +97,26 @@ func isModelled(fn *ssa.Function) bool {
 		case "FromBytes", "ToBytes", "ParseOption", "MessageFromBytes", "RelayMessageFromBytes", "DUIDFromBytes",
 			"FromBytesWithParser", "parseNTPSuboption", "Unmarshal", "Marshal", "vendParseOption", "write16":
 			return true
+		// C03 observers (lean/Dhcp/V6/Build.lean, Dhcp/V6/Observe.lean)
+		case "DecapsulateRelay", "DecapsulateRelayIndex", "GetInnerMessage", "ExtractMAC", "GetMacAddressFromEUI64",
+			"ClientID", "IANA", "OneIANA", "Addresses", "DNS", "DomainSearchList", "NTPServers", "BootFileURL", "BootFileParam",
+			"RelayMessage", "InterfaceID", "RemoteID", "ClientLinkLayerAddress":
+			return true
+		}
+	case mod + "/dhcpv6/ztpv6":
+		switch name {
+		case "ParseVendorData", "getMellanoxVendorData", "ParseRemoteID":
+			return true
+		}
+	case mod + "/dhcpv4/ztpv4":
+		switch name {
+		case "ParseVendorData", "parseClassIdentifier", "parseVIVC", "ParseCircuitID":
+			return true
+		}
+	case mod + "/netboot":
+		switch name {
+		case "ConversationToNetconf", "ConversationToNetconfv4", "GetNetConfFromPacketv6", "GetNetConfFromPacketv4":
+			return true
 		}
 	case mod + "/dhcpv4":
 		switch {
